@@ -73,14 +73,14 @@ def reserveAll (n first : Nat) : List Call := (List.range n).map (fun j => .rp j
 
 def spawnPush (s : SrcState) (edge item : Nat) (thenGen : Bool) : SrcState × List Call :=
   ({ s with subs := s.subs ++ [{ ord := s.nextProc, edge := edge, item := item }],
-            nextProc := s.nextProc + 1, pc := .pushWait s.nextProc thenGen }, [.spawn s.nextProc])
+            nextProc := s.nextProc + 1, pc := .pushWait s.nextProc thenGen }, [.spawn s.nextProc, .awaitProc])
 
 /-- the scan `for edge in out_edges: if edge.can_put(): …; break` -/
 def scanCan (cans : List Bool) (n : Nat) : List Call × Option Nat :=
   let rec go (j : Nat) (cs : List Bool) (fuel : Nat) (acc : List Call) : List Call × Option Nat :=
     match fuel, cs with
     | 0, _ => (acc, none)
-    | _, [] => (acc, none)
+    | _ + 1, [] => (acc ++ [.bad], none)          -- an out-edge was not probed although none before it had room
     | f + 1, c :: cs => if c then (acc ++ [.can j true], some j) else go (j + 1) cs f (acc ++ [.can j false])
   go 0 cans n []
 
@@ -104,7 +104,7 @@ def behaviour (s : SrcState) (t : Nat) (a : Ans) : SrcState × List Call :=
       if s.cfg.blocking then
         let toks := (List.range s.cfg.nout).map (· + s1.nextTok)
         ({ s1 with clock := s1.clock.update 2 t, nextTok := s1.nextTok + s.cfg.nout, pc := .faWait toks,
-                   openToks := s1.openToks ++ toks }, reserveAll s.cfg.nout s1.nextTok)
+                   openToks := s1.openToks ++ toks }, reserveAll s.cfg.nout s1.nextTok ++ [.awaitAny s.cfg.nout])
       else
         let (calls, found) := scanCan a.cans s.cfg.nout
         match found with
@@ -164,7 +164,7 @@ def pushStep (s : SrcState) (p : PushProc) (a : Ans) : SrcState × List Call :=
   | none =>
     let p' := { p with tok := some s.nextTok }
     ({ s with subs := s.subs.map (fun q => if q.ord = p.ord then p' else q), nextTok := s.nextTok + 1,
-              openToks := s.openToks ++ [s.nextTok] }, [.rp p.edge s.nextTok])
+              openToks := s.openToks ++ [s.nextTok] }, [.rp p.edge s.nextTok, .awaitTok])
   | some tok =>
     if p.done ∨ !a.trig.contains tok then ({ s with flagged := true }, [.bad])
     else
@@ -213,7 +213,7 @@ def init (nin : Nat) : SinkState := { nin := nin }
 def arm (s : SinkState) (t : Nat) : SinkState × List Call :=
   let toks := (List.range s.nin).map (· + s.nextTok)
   ({ s with clock := s.clock.update 0 t, pc := some toks, nextTok := s.nextTok + s.nin, openToks := s.openToks ++ toks },
-   (List.range s.nin).map (fun j => .rg j (s.nextTok + j)))
+   (List.range s.nin).map (fun j => .rg j (s.nextTok + j)) ++ [.awaitAny s.nin])
 
 def step (s0 : SinkState) (proc t : Nat) (a : Ans) : SinkState × List Call :=
   if t < s0.now then ({ s0 with flagged := true }, [.bad]) else
